@@ -53,8 +53,7 @@ DEVIATIONS = {
     "get_cutoff_at_eval": ({}, False),             # cutoff computed by the manager, not by the caller
     "unsorted": ({}, True),
 }
-QUICK_DEVS = ["add_drops", "mix_text_reason", "clean_last_get_expiry", "clean_inclusive", "get_inclusive", "get_first_seen",
-              "keep_newest_stamp"]
+QUICK_DEVS = ["add_drops", "mix_text_reason", "clean_last_get_expiry", "clean_inclusive", "get_inclusive", "get_first_seen"]
 WITNESSES = ["add_blocked", "overwrite", "stale_stamp_overwrites_newer", "consumed_when_already_old", "clean_boundary",
              "cleaned", "get_boundary", "levelA_must", "consumed_but_not_provably", "two_records"]
 
@@ -602,6 +601,8 @@ def selftest(ctx, good, gens, strict=True):
                     b2 = copy(b)
                     b2[i]["g0"], b2[i]["g1"] = b[i - 1]["g0"], g1
                     return b2, i
+    expect = dict(pair="pair", stamp="stamp", sorted="sorted", must="must", last="last", window="window", known="known",
+                  held="add_returned_while_full", cleaned_early="must")
     for name, f in (("pair", f_pair), ("stamp", f_stamp), ("sorted", f_sorted), ("must", f_must), ("last", f_last), ("window", f_window),
                     ("known", f_known), ("held", f_held), ("cleaned_early", f_early)):
         probe(name, f)
@@ -609,16 +610,27 @@ def selftest(ctx, good, gens, strict=True):
     need = {"pair", "stamp", "sorted", "must", "last", "window", "known", "held"}
     if not need <= set(names) and strict:
         raise Machinery("binding self-test: the accepted executions do not offer every probe (%s)" % names)
-    if ctx.quick():
-        jobs = [j for j in jobs if j[0] in ("pair", "must", "last", "window", "held", "sorted")]
-
-    def one(job):
-        name, b2, at = job
-        _, rej, _ = validate(ctx, [b2], tag="self_" + name, own_dir="spec_self_" + name)
-        return name, (bool(rej) and rej[0][1] == at)
-    with ThreadPoolExecutor(max_workers=4) as ex:
-        res = list(ex.map(one, jobs))
-    bad = [n for n, ok in res if not ok]
+    # one TLC run over all corrupted copies (Diag = TRUE: every line is evaluated and the failing clauses are printed): in
+    # each copy the first line that fails must be the corrupted one, with the clause the corruption is about
+    flat, where = [], []
+    for name, b2, at in jobs:
+        where.append((name, len(flat), len(b2), at))
+        flat += b2
+    f = ctx.write_ndjson("xb_selftest.ndjson", flat)
+    ok, matched, res = ctx.validate_traces("BadMetricsTrace", "BadMetricsTrace.cfg", f, len(flat), 0, consts=dict(Diag=True), tag="selftest",
+                                           timeout=900, own_dir="spec_self", heap="2g")
+    if not ok:
+        raise Machinery("binding self-test: the diagnostic run did not get through the corrupted copies; log %s" % res["log"])
+    flagged = {}
+    for x in ctx.tlc_printed(res, "@@DIAG"):
+        d = json.loads(x)
+        flagged.setdefault(d["line"], set()).update(d["failed"])
+    bad = []
+    for name, off, ln, at in where:
+        first = min([l for l in flagged if off < l <= off + ln] or [0])
+        if first != off + at + 1 or expect[name] not in flagged[first]:
+            bad.append("%s (first failing line %s, expected %d: %s)" % (name, first - off - 1 if first else None, at, sorted(flagged.get(first, []))))
     if bad:
-        raise Machinery("binding self-test: corrupted execution(s) %s accepted by BadMetricsTrace (or rejected at another line)" % bad)
-    ctx.cov["binding_selftests"] = "rejected at the corrupted line, as required: " + ", ".join(n for n, _ in res)
+        raise Machinery("binding self-test: corrupted execution(s) accepted by BadMetricsTrace or rejected for another reason: %s" % bad)
+    ctx.cov["binding_selftests"] = "rejected at the corrupted line by the expected clause: " + ", ".join(
+        "%s (%s)" % (n, expect[n]) for n, _, _, _ in where)
